@@ -34,6 +34,7 @@ type uLoc struct {
 	rel    uint64
 	lines  []uLine
 	folded bool
+	below  bool // mapped, but the address is the bare offset (below the mapping's start; 0 = address-less)
 }
 type uSample struct {
 	locs   []int
@@ -59,6 +60,7 @@ func baseUniverse(r *rand.Rand) *universe {
 	u.fns = append(u.fns, uFn{"f1", "f1", "file1", 3}, uFn{"f2", "", "file0", 0})
 	for i := 0; i < 7; i++ {
 		l := uLoc{m: r.Intn(len(u.maps)+1) - 1, rel: uint64(r.Intn(3)) * 0x10, folded: r.Intn(8) == 0}
+		l.below = l.m >= 0 && r.Intn(10) == 0
 		for j, n := 0, r.Intn(4); j < n; j++ {
 			l.lines = append(l.lines, uLine{r.Intn(len(u.fns)), int64(r.Intn(2)), int64(r.Intn(2))})
 		}
@@ -76,7 +78,7 @@ func (u *universe) addLoc(l uLoc) int { u.locs = append(u.locs, l); return len(u
 var attrs = []string{
 	"fn.name", "fn.sys", "fn.file", "fn.start",
 	"line.line.last", "line.col.last", "line.line.inner", "line.col.inner", "line.fn.inner",
-	"loc.folded", "loc.rel", "loc.nlines", "loc.lineorder", "loc.mapping.none",
+	"loc.folded", "loc.rel", "loc.below", "loc.nlines", "loc.lineorder", "loc.mapping.none",
 	"map.build", "map.file", "map.offset", "map.size",
 	"label.key", "label.value", "label.multiplicity", "label.order", "num.value", "num.unit", "num.multiplicity", "label.kind",
 	"stack.order", "stack.repeat", "stack.extra",
@@ -191,6 +193,14 @@ func (u *universe) twin(r *rand.Rand, s uSample, attr string) (uSample, bool) {
 		pos := r.Intn(len(t.locs))
 		nl := cloneLoc(u.locs[t.locs[pos]])
 		nl.folded = !nl.folded
+		replaceLoc(pos, nl)
+	case attr == "loc.below":
+		pos, ok := pickLoc(mapped)
+		if !ok {
+			return t, false
+		}
+		nl := cloneLoc(u.locs[t.locs[pos]])
+		nl.below = !nl.below
 		replaceLoc(pos, nl)
 	case attr == "loc.rel":
 		if len(t.locs) == 0 {
@@ -450,6 +460,9 @@ func (u *universe) concrete(r *rand.Rand, samples []uSample, types [][2]string) 
 		if ul.m >= 0 {
 			l.Mapping = getM(ul.m)
 			l.Address = l.Mapping.Start + ul.rel
+			if ul.below {
+				l.Address = ul.rel
+			}
 		} else {
 			l.Address = 0x999000 + ul.rel
 		}
